@@ -1,4 +1,4 @@
-from formulae.expr import Grouping
+from formulae.expr import Grouping, Unary
 from formulae.terms import Variable, Call, Term, Intercept, NegatedIntercept, Response
 from formulae.terms.call_resolver import CallResolver
 
@@ -12,6 +12,7 @@ class Resolver:
 
     def __init__(self, expr):
         self.expr = expr
+        self.response = None
 
     def resolve(self):
         return self.expr.accept(self)
@@ -29,6 +30,13 @@ class Resolver:
                 root = root.expression
             if expr is not root:
                 raise ResolverError("'~' can only be used once, between the response and the terms")
+            # The only place where the subset notation 'variable[level]' has a meaning
+            self.response = expr.left
+            while isinstance(self.response, (Grouping, Unary)):
+                if isinstance(self.response, Grouping):
+                    self.response = self.response.expression
+                else:
+                    self.response = self.response.right
             return Response(expr.left.accept(self)) + expr.right.accept(self)
         if otype == "PLUS":
             return expr.left.accept(self) + expr.right.accept(self)
@@ -69,6 +77,13 @@ class Resolver:
         return Term(Call(CallResolver(expr).resolve()))
 
     def visitVariableExpr(self, expr):
+        if expr.level and expr is not self.response:
+            # It would be dropped without notice when the term does not make it into the model,
+            # as in 'y ~ x + g[a] - g[a]' or 'y ~ (x - x):g[a]'
+            raise ResolverError(
+                f"'{expr.name.lexeme}[{expr.level.value}]' is not the response. "
+                "The notation 'variable[level]' can only be used for the response."
+            )
         if expr.level:
             level = expr.level.value
         else:
